@@ -268,6 +268,18 @@ class VJson(V):
         return f"VJson({self.t})"
 
 
+class VRec(V):
+    """An immutable dict literal with concrete keys, as a value (JSON fragments built inside loops)."""
+
+    kind = "rec"
+
+    def __init__(self, items):
+        self.items = dict(items)
+
+    def __repr__(self):
+        return f"VRec({list(self.items)})"
+
+
 class VLambda(V):
     kind = "lambda"
 
@@ -314,6 +326,8 @@ def vite(c, a, b):
         return a
     if isinstance(a, VTuple) and isinstance(b, VTuple) and len(a.items) == len(b.items):
         return VTuple([vite(c, x, y) for x, y in zip(a.items, b.items)])
+    if isinstance(a, VRec) and isinstance(b, VRec) and list(a.items) == list(b.items):
+        return VRec({k: vite(c, a.items[k], b.items[k]) for k in a.items})
     return VIte(c, a, b)
 
 
@@ -342,6 +356,8 @@ def subst_v(v, pairs):
         return VJson(z3.substitute(v.t, *pairs))
     if isinstance(v, VTuple):
         return VTuple([subst_v(x, pairs) for x in v.items])
+    if isinstance(v, VRec):
+        return VRec({k: subst_v(x, pairs) for k, x in v.items.items()})
     if isinstance(v, VIte):
         return vite(z3.substitute(v.c, *pairs), subst_v(v.a, pairs), subst_v(v.b, pairs))
     return v
@@ -474,13 +490,26 @@ class ForallFact:
     instances bvar -> body(t), the witness axiom  bvar or (guard(w) and not body(w))  is emitted.
     """
 
-    def __init__(self, k, guard, body, bvar=None, witness=None, name=""):
+    def __init__(self, k, guard, body, bvar=None, witness=None, name="", nested=None):
         self.k = k
         self.guard = guard
         self.body = body
         self.bvar = bvar
         self.witness = witness
         self.name = name
+        self.nested = nested or []  # quantified facts created at the generic key (instantiated along)
+
+    def subst(self, pairs):
+        sub = lambda t: z3.substitute(t, *pairs) if t is not None else None
+        return ForallFact(
+            self.k,
+            sub(self.guard),
+            sub(self.body),
+            bvar=sub(self.bvar),
+            witness=sub(self.witness),
+            name=self.name,
+            nested=[n.subst(pairs) for n in self.nested],
+        )
 
     def inst(self, t):
         if isinstance(self.k, (list, tuple)):
